@@ -16,17 +16,17 @@ def sh(cmd, cwd=None, timeout=3600):
     return p.returncode, p.stdout
 
 
-def confirm(wt, patch, demo):
+def confirm(wt, patch, demo, features="mt"):
     name = os.path.basename(demo)[:-3]
     sh("git checkout -- . && git clean -fdq sylvia/tests", cwd=wt)
     sh("cp %s %s/sylvia/tests/" % (demo, wt))
-    rc0, out0 = sh("cargo test -p sylvia --offline --features mt --test %s 2>&1 | tail -15" % name, cwd=wt)
+    rc0, out0 = sh("cargo test -p sylvia --offline --features %s --test %s 2>&1 | tail -15" % (features, name), cwd=wt)
     ok_without = "test result: ok" in out0 and "FAILED" not in out0 and "error" not in out0.split("test result")[0][-400:]
     rc, out = sh("git apply %s" % patch, cwd=wt)
     if rc:
         print("PATCH DOES NOT APPLY", out)
         return
-    rc1, out1 = sh("cargo test -p sylvia --offline --features mt --test %s 2>&1 | tail -15" % name, cwd=wt)
+    rc1, out1 = sh("cargo test -p sylvia --offline --features %s --test %s 2>&1 | tail -15" % (features, name), cwd=wt)
     fails_with = ("test result: FAILED" in out1) or ("error" in out1 and "could not compile" in out1)
     sh("rm -f sylvia/tests/%s.rs" % name, cwd=wt)
     rc2, out2 = sh("cargo test --workspace --no-fail-fast --offline 2>&1 | grep -E '^test result|FAILED|^error' ", cwd=wt)
@@ -70,6 +70,6 @@ def run(patch, props):
 
 if __name__ == "__main__":
     if sys.argv[1] == "confirm":
-        confirm(*sys.argv[2:5])
+        confirm(*sys.argv[2:6])
     else:
         run(sys.argv[2], sys.argv[3:])
